@@ -30,13 +30,21 @@ EXPLANATION = (
     "equality, junction configurations.")
 EXPLANATION += (' R-C04-6: in the multi-point path the representative sequence handed to the reversal detection and the load-step table indexed with the detected positions are both in order of appearance (order-class analysis; a key-sorted groupby/unique is a violation).')
 EXPLANATION += (' R-C04-7: the junction of the two passes is handled by _new_turns: the kept sample tail starts exactly at the last turning point found (or at 0), is cut from the analysed array, and the global-index offset uses head and tail before they are updated (shared with R-C01-2).')
+EXPLANATION += (' R-C04-9 (shared with R-C05-14): no HCM decision is reduced over the assessment points with all()/any().')
 EXPLANATION += (' R-C04-8: the HCM case decisions use no relative tolerance (shared with R-C05-10), and nothing cached on the FKM-nonlinear recorder or detector survives a later recording call (memo rule: hand-written `if self._x is None` caches and caching decorators).')
 ASSUMPTIONS = ["the caller replays in pass 2 only loads of pass 1 (a fact about the caller's data)"]
 
 
 def run(ctx):
-    for r in (_r1, _r2, _r3, _r5, _r6, _r7, _r8):
+    for r in (_r1, _r2, _r3, _r5, _r6, _r7, _r8, _r9):
         ctx.attempt(r)
+
+
+def _r9(ctx):
+    """R-C04-9 (shared with R-C05-14): the lower / upper point of a closed hysteresis and every other HCM decision is taken on the
+    representative point, not reduced over all assessment points."""
+    from .c05 import r14_point_axis
+    r14_point_axis(ctx, "R-C04-9")
 
 
 def _r1(ctx):
